@@ -9,7 +9,7 @@ import z3
 
 from pyvc import types as T
 from pyvc.calls import Calls
-from pyvc.engine import SpecEval, St, SV, Out, VC, Unsupported, V, IntS, NONE_SV, fresh, as_r, base_heap, heap_sort, mk_int
+from pyvc.engine import relevant_only, SpecEval, St, SV, Out, VC, Unsupported, V, IntS, NONE_SV, fresh, as_r, base_heap, heap_sort, mk_int
 from pyvc.execu import Executor
 from pyvc.source import Repo
 from pyvc.spec import Contract, Registry
@@ -276,6 +276,7 @@ def discharge(vc: VC, timeout_ms: int = 10000, retry: bool | int = True) -> Disc
 
     s = z3.Solver()
     s.set("timeout", 600 if vc.cover else (2500 if vc.canary else timeout_ms))
+    vc = relevant_only(vc)
     body = list(vc.pc) + [vc.goal]
     if uses_any(body, [int_str, parse_int, str_count_nl]):
         s.add(*background_axioms())
